@@ -1276,7 +1276,10 @@ static int32_t pstm_mod_2d(const pstm_int *a, int16_t b, pstm_int *c)
         c->dp[x] = 0;
     }
     /* clear the digit that is not completely outside/inside the modulus */
-    c->dp[b / DIGIT_BIT] &= ~((pstm_digit) 0) >> (DIGIT_BIT - b);
+    if ((b % DIGIT_BIT) != 0)
+    {
+        c->dp[b / DIGIT_BIT] &= ~((pstm_digit) 0) >> (DIGIT_BIT - (b % DIGIT_BIT));
+    }
     pstm_clamp(c);
     return PSTM_OKAY;
 }
@@ -1336,7 +1339,6 @@ int32_t pstm_div_2d(psPool_t *pool, const pstm_int *a, int16_t b, pstm_int *c,
     pstm_int *d)
 {
     pstm_digit D, r, rr;
-    int32 res;
     int16 x;
 
     /* if the shift count is <= 0 then we do no work */
@@ -1355,8 +1357,15 @@ int32_t pstm_div_2d(psPool_t *pool, const pstm_int *a, int16_t b, pstm_int *c,
     /* copy */
     if (pstm_copy(a, c) != PSTM_OKAY)
     {
-        res = PS_MEM_FAIL;
-        goto LBL_DONE;
+        return PS_MEM_FAIL;
+    }
+    /* get the remainder before shifting: 'c' may be the same variable as 'a' */
+    if (d != NULL)
+    {
+        if (pstm_mod_2d(a, b, d) != PSTM_OKAY)
+        {
+            return PS_MEM_FAIL;
+        }
     }
 
     /* shift by as many digits in the bit count */
@@ -1396,18 +1405,7 @@ int32_t pstm_div_2d(psPool_t *pool, const pstm_int *a, int16_t b, pstm_int *c,
         }
     }
     pstm_clamp(c);
-
-    res = PSTM_OKAY;
-LBL_DONE:
-    /* set the remainder */
-    if (d != NULL)
-    {
-        if (pstm_mod_2d(a, b, d) != PSTM_OKAY)
-        {
-            res = PS_MEM_FAIL;
-        }
-    }
-    return res;
+    return PSTM_OKAY;
 }
 
 /******************************************************************************/
